@@ -93,7 +93,7 @@ def coverage_structure():
     s.mats["m-0"] = (Fr(0), Fr("21000000"), Fr(0), Fr(0), Fr("27500"), Fr(0))
     for i in range(8):
         s.bars.append({"id": "k%d" % i, "n1": "c%d" % i, "l1": combos[i], "n2": "c%d" % (i + 1), "l2": combos[(i + 3) % 8],
-                       "mat": "m-0" if i == 5 else ("S275" if i == 6 else "m 17"), "sec": "z 0" if i in (2, 5) else ("S275" if i in (4, 6) else "s-17")})
+                       "mat": "m-0" if i == 5 else ("S275" if i in (1, 4) else "m 17"), "sec": "z 0" if i in (2, 5) else ("S275" if i in (3, 6) else "s-17")})
     s.loads = [{"kind": "c", "term": "fy", "local": True, "bar": "k0", "t": Fr("0.33333333333333331"), "v": Fr("-100.00000000000001")},
                {"kind": "d", "term": "fx", "local": False, "bar": "k3", "t0": Fr("0.10000000000000001"), "v0": Fr("-0.30000000000000004"),
                 "t1": Fr("0.90000000000000002"), "v1": Fr("12345.678901234568")},
